@@ -18,9 +18,10 @@
 (***************************************************************************)
 EXTENDS Integers, Sequences, FiniteSets, TLC
 
-CONSTANTS P, Max      \* prefetch window and MaxRequestBodySize, in units
+CONSTANTS P, Max,     \* prefetch window and MaxRequestBodySize, in units
+          DrainMax    \* what the loop is willing to discard after the handler (256 KiB = 64 units)
 
-Sizes == {0, 1, 3, 5}                 \* none, < P, > P and <= Max, > Max
+Sizes == {0, 1, 3, 5, 80}             \* none, < P, > P and <= Max, > Max, > DrainMax (streaming only)
 Progs == {"none", "one", "allbutone", "all", "postbody"}
 \* handler programs: units read from RequestBodyStream() (0, 1, size-1, to EOF) or PostBody()
 ExpectModes == {"noHandler", "expAccept", "expReject", "contAccept", "contReject"}
@@ -38,6 +39,7 @@ Relevant(s) ==
   /\ (s.stream => s.prog # "postbody") /\ (~s.stream => s.prog = "postbody")
   /\ (s.size = 0 => (~s.expect /\ s.framing = "fixed" /\ s.prog \in {"none", "postbody"}))
   /\ (s.size = 1 => s.prog # "allbutone")
+  /\ (s.size = 80 => (s.stream /\ ~s.expect /\ s.prog \in {"none", "one", "all"}))
 
 VARIABLES
   sc,        \* the scenario
@@ -130,8 +132,9 @@ Respond ==
 AtBoundary == pos = sc.size \/ ~onWire
 
 \* after the response: consume what is left of the body, or close
+\* (discarding is bounded: a loop may only drain what fits its budget)
 DrainRest ==
-  /\ phase = "after" /\ ~AtBoundary
+  /\ phase = "after" /\ ~AtBoundary /\ sc.size - pos <= DrainMax
   /\ pos' = sc.size
   /\ UNCHANGED <<sc, phase, onWire, sent100, dispatched, resps, closed, misparse>>
 
